@@ -59,6 +59,12 @@ func genCase(t *rapid.T) Case {
 		case 1:
 			x.Traps = uint32(apd.DefaultTraps)
 		}
+		// rarely a precision just above a power of two up to 2048: the ln(10) constants are
+		// tabulated per power of two, so these are the table's boundaries
+		if gen.Pick(t, 40, "hugep") == 0 {
+			x.P = []uint32{130, 260, 520, 1030}[gen.Pick(t, 4, "hp")]
+			x.Emax, x.Emin = 5000, -5000
+		}
 		c.Ctxs = append(c.Ctxs, x)
 	}
 	np := rapid.IntRange(2, 8).Draw(t, "npool")
@@ -75,6 +81,14 @@ func genCase(t *rapid.T) Case {
 				o.D.Coeff = gen.Digits(t, 19, "small")
 				o.Shrunk = true
 			}
+		}
+		if gen.Pick(t, 12, "padzero") == 0 { // values whose plain notation needs hundreds of padding zeros
+			if rapid.Bool().Draw(t, "pz") {
+				o.D = core.Dec{Coeff: "0", Exp: int32(-rapid.IntRange(200, 2000).Draw(t, "pze"))}
+			} else {
+				o.D = core.Dec{Coeff: gen.Digits(t, 5, "pzc"), Exp: int32(rapid.IntRange(-1500, 1500).Draw(t, "pze2"))}
+			}
+			o.Shrunk = false
 		}
 		if o.D.Form == 0 && len(o.D.Coeff) > 20 && gen.Pick(t, 2, "trim") == 0 {
 			o.D.Exp = int32(rapid.IntRange(-30, 5).Draw(t, "pe"))
@@ -113,6 +127,15 @@ func snap(d *apd.Decimal) string {
 
 // bounded keeps transcendental work cheap.
 func bounded(op string, x, y *apd.Decimal) bool {
+	switch op {
+	case "add", "sub", "quo", "rem", "quointeger":
+		// keep exponent gaps moderate (10^gap arithmetic under the race detector)
+		if x.Form == apd.Finite && y.Form == apd.Finite {
+			if g := int64(x.Exponent) - int64(y.Exponent); g > 3000 || g < -3000 {
+				return false
+			}
+		}
+	}
 	switch op {
 	case "exp", "ln", "log10", "pow", "cbrt":
 		if x.Form == apd.Finite && (x.NumDigits() > 24 || x.Exponent > 30 || x.Exponent < -60) {
@@ -154,7 +177,7 @@ func exec(it Item, ctx *apd.Context, x, y *apd.Decimal) string {
 	case "r.sign":
 		return fmt.Sprint(x.Sign(), x.IsZero())
 	case "r.text":
-		if x.Exponent > 200 || x.Exponent < -200 {
+		if x.Exponent > 3000 || x.Exponent < -3000 {
 			return x.Text('E')
 		}
 		return x.Text('f') + x.Text('e')
